@@ -108,6 +108,8 @@ void prop_c11(hz::Ctx &ctx) {
     // zero padding to every length for positive hex literals
     std::vector<ImmSp> more;
     for (auto &s : sps) if (s.hex && !s.neg) for (int pad = 1; pad <= 16; pad++) { ImmSp p = s; p.pad = pad; char b[40]; snprintf(b, sizeof b, "%llx", (unsigned long long)s.v); if ((int)strlen(b) <= pad && (pad == 15 || pad == 16 || pad == 8 || pad == 9 || rng.below(4) == 0)) more.push_back(p); }
+    // decimal literals of 16 and more characters: only a hexadecimal one suppresses narrowing
+    for (auto &s : sps) if (!s.hex && s.pad == 0 && (s.v <= 0xffffffffULL || rng.below(4) == 0)) for (int pad : {15, 16, 17, 18, 19, 20, 24}) if (pad >= 17 && pad <= 18 ? true : rng.below(3) == 0) { ImmSp p = s; p.pad = pad; uint64_t mag = s.neg ? (uint64_t)(0 - s.v) : s.v; if (ndigits(mag, false) < pad) more.push_back(p); }
     sps.insert(sps.end(), more.begin(), more.end());
     auto ref = form_refs([](const Form &f) { return std::string(f.pat) == "R,IMOV"; });
     FormRef r64; for (auto &r : ref) if (r.size == 64) r64 = r;
@@ -122,7 +124,7 @@ void prop_c11(hz::Ctx &ctx) {
         if (!ctx.begin(id, text(c.it))) continue;
         ctx.cls("group:mov-r64-imm"); ctx.cls(std::string("movmode:") + (mode == 0 ? "STRICT" : mode == 1 ? "NASM" : "SMART"));
         bool full16 = sps[i].hex && !sps[i].neg && sps[i].pad == 16;
-        if (sps[i].v <= 0xffffffffULL) ctx.cls("mov:narrowable"); if (full16) ctx.cls("mov:16-digit"); if (!sps[i].hex) ctx.cls("mov:decimal");
+        if (sps[i].v <= 0xffffffffULL) ctx.cls("mov:narrowable"); if (full16) ctx.cls("mov:16-digit"); if (!sps[i].hex) ctx.cls("mov:decimal"); if (!sps[i].hex && sps[i].pad >= 16) ctx.cls("mov:decimal-16-and-more-characters");
         if (sps[i].v <= 0xffffffffULL || full16) ctx.nontrivial(id);
         MV v = check_mov_rule(c);
         if (ctx.want_sample()) ctx.put_sample(text(c.it) + " [" + combo_name(c.combo) + "] -> " + (v.ok ? "as documented" : v.symptom));
@@ -212,10 +214,10 @@ static std::string styled(const Intent &it, const Style &st, bool allow_radix) {
           if (m.scale != 1 || m.scale_written) { if (m.scale_first) s += std::to_string(m.scale) + sp(st.sp_in) + "*" + sp(st.sp_in) + r; else s += r + sp(st.sp_in) + "*" + sp(st.sp_in) + std::to_string(m.scale); } else s += r;
           any = true;
         }
-        if (m.has_disp || !any) { bool neg = m.disp < 0; if (any) s += sp(st.sp_in) + (neg ? "-" : "+") + sp(st.sp_in); else if (neg) s += "-"; s += num_styled((uint64_t)(neg ? -m.disp : m.disp), false, m.disp_hex, 0, st, allow_radix, rng); }
+        if (m.has_disp || !any) { bool neg = m.disp < 0; if (any) s += sp(st.sp_in) + (neg ? "-" : "+") + sp(st.sp_in); else if (neg) s += "-"; s += num_styled((uint64_t)(neg ? -m.disp : m.disp), false, m.disp_hex, m.disp_pad, st, allow_radix, rng); }
         s += sp(st.sp_in) + "]"; break; }
       case K_IMM: s += num_styled(o.imm.v, o.imm.neg, o.imm.hex, o.imm.pad, st, allow_radix, rng); break;
-      case K_REL: s += num_styled(o.imm.v, o.imm.neg, o.imm.hex, 0, st, allow_radix, rng); break;
+      case K_REL: s += num_styled(o.imm.v, o.imm.neg, o.imm.hex, o.imm.pad, st, allow_radix, rng); break;
       default: s += mixcase(regtext(o), st.upper_reg, rng, mixed);
     }
   }
